@@ -247,6 +247,9 @@ void harness(void)
   /* a lookup/hostresorder line naming no recognised source is a malformed line: it must not erase the established order
    * (it either replaces it by a valid order, checked below, or leaves it) */
   if (OWN == 2) VP_ASSERT(A.lookups != NULL, "a lookup line never erases an established lookup order");
+  /* same for the search list: a search/domain line whose value names no domain (separators only) is a malformed line
+   * and changes nothing; any other value replaces the list by at least one domain */
+  if (OWN == 1) VP_ASSERT(A.ndomains >= 1 && A.domains != NULL, "a search line never erases an established search list");
 #endif
 
   /* owned field well-formed */
